@@ -239,6 +239,16 @@ func replayModel(repo, root string, o *Obligation) (bool, map[string]interface{}
 		return false, rec
 	}
 	base := strings.TrimSuffix(buildQuery(o, nil), "(check-sat)\n")
+	if rs.ExpectPanic && o.Result != "sat" {
+		if fs := o.Goal.String(); strings.Contains(fs, "forall") || strings.Contains(fs, "exists") {
+			return false, rec
+		}
+		base = strings.TrimSuffix(buildQueryRelaxed(o), "(check-sat)\n")
+		if os.Getenv("VERIF_DEBUG_RELAXED") != "" {
+			os.WriteFile("/var/tmp/relaxed.smt2", []byte(base+"(check-sat)\n"), 0o644)
+		}
+		rec["candidate_from"] = "relaxed query (theory axioms and quantified facts dropped); confirmed only by running the real code"
+	}
 	bv := o.Theory == "none"
 	// 1. lengths of byte-sequence parameters (minimised) and scalar parameters
 	var extra []string
